@@ -593,7 +593,7 @@ theorem expr_semF {ctx : Ctx} {T : List FEntry} {B : Nat} (hT : TableOK T) (hctx
     · subst er
       rw [← eo, copyVals_ctx, hcx, hs3vc]
       refine ⟨?_, ?_⟩
-      · refine LinesOK.append (LinesOK.reverse (copyLines_ok ctx _ _ _ _ _)) (LinesOK.cons ⟨fun x hx => by simp [lineTargets] at hx, fun nm ar e' => ?_⟩ simA.lines)
+      · refine LinesOK.append (LinesOK.reverse (copyLines_ok ctx _ _ _ _ _)) (LinesOK.cons ⟨fun x hx => by simp [lineTargets] at hx, fun nm ar e' => ?_, rfl⟩ simA.lines)
         simp only [Line.callFn.injEq] at e'
         rw [← e'.1]
         simp only [tnames, List.mem_map]
